@@ -388,6 +388,10 @@ def r6_filters(R, sh: SolverShape) -> None:
                 if isinstance(stmt, ast.Expr) and is_call(stmt.value, 'warnings.simplefilter'):
                     sel = stmt
                     break
+                if isinstance(stmt, ast.Expr) and isinstance(stmt.value, ast.Call) and isinstance(stmt.value.func, ast.Name) \
+                        and any(isinstance(x, ast.FunctionDef) and x.name == stmt.value.func.id and x is not sh.fi.node for x in ast.walk(sh.fi.node)):
+                    sel = stmt
+                    break
                 if any(c is call for c in ast.walk(stmt)):
                     break
             if isinstance(sel, ast.Expr) and isinstance(sel.value, ast.Call) and isinstance(sel.value.func, ast.Name) and not sel.value.args and not sel.value.keywords:
